@@ -17,9 +17,10 @@ from ..symreal.core import S, symarr, vjp, new_session, evalarr
 from ..symreal.discharge import prove_equal
 from ..symreal.pool import run_catalogue
 
-ALPHABET = ["B0", "B1", "B2", "B3", "B4", "B5", "B6", "BW_last", "BW_prev", "BW_int", "BW_leaf_a", "BWR_last", "BWR_int", "RET_int", "RET_last", "Z_a", "Z_mod", "Z_opt"]
+ALPHABET = ["B0", "B1", "B2", "B3", "B4", "B5", "B6", "B7", "REG_d", "BW_last", "BW_prev", "BW_int", "BW_leaf_a", "BWR_last", "BWR_int", "RET_int", "RET_last", "Z_a", "Z_mod", "Z_opt"]
 DESCR = {
     "B0": "r = a * b", "B1": "m = a + b; r = m * a", "B2": "r = sum(a * a)", "B3": "r = <previous result> * b  (reuse of an earlier result)", "B4": "m = exp(b); r = m * c", "B5": "u = unbind(a); r = u[0] * b + u[1] + a   (multi-output op whose operand is also used directly)",
+    "B7": "r = a * d   (d: a parameter that is registered in a nested module only by event REG_d)", "REG_d": "module.inner.pd = d   (registration after the module may already have been queried)",
     "B6": "r = cross_entropy(stack([a, b]), labels [0, 1])   (a fused loss whose backward re-uses values of its forward)",
     "BW_last": "backward(last result, fresh g)", "BW_prev": "backward(previous result, fresh g)", "BW_int": "backward(last interior node m, fresh g)",
     "BW_leaf_a": "a.backward(fresh g)", "BWR_last": "with retain_grads(): backward(last result)", "BWR_int": "with retain_grads(): backward(last interior)",
@@ -30,7 +31,8 @@ DESCR = {
 class World:
     """interprets a history on the real library; the same interpreter runs symbolically and natively"""
 
-    def __init__(self, mode, sess=None, point=None):
+    def __init__(self, mode, sess=None, point=None, shape=(2,)):
+        self.shape = tuple(shape)
         import synapgrad
         from synapgrad.nn.modules import Parameter, Module
         from synapgrad.optim.optimizers import SGD
@@ -39,10 +41,15 @@ class World:
         self.point = point
         self.F = synapgrad.functional
         self.tmod = shim.tmod()
-        self.a = Parameter(self._arr("a", (2,)), requires_grad=True)
-        self.b = Parameter(self._arr("b", (2,)), requires_grad=True)
-        self.c = Parameter(self._arr("c", (2,)), requires_grad=False)
-        self.leaves = {"a": self.a, "b": self.b, "c": self.c}
+        self.a = Parameter(self._arr("a", self.shape), requires_grad=True)
+        self.b = Parameter(self._arr("b", self.shape), requires_grad=True)
+        self.c = Parameter(self._arr("c", self.shape), requires_grad=False)
+        self.d = Parameter(self._arr("d", self.shape), requires_grad=True)      # registered late (event REG_d), never given to the optimizer
+        self.d_registered = False
+        self.leaves = {"a": self.a, "b": self.b, "c": self.c, "d": self.d}
+
+        class Inner(Module):
+            pass
 
         class Holder(Module):
             def __init__(s):
@@ -50,6 +57,7 @@ class World:
                 s.pa = self.a
                 s.pb = self.b
                 s.pc = self.c
+                s.inner = Inner()
         self.module = Holder()
         self.optim = SGD([self.a, self.b], lr=0.1)
         self.results = []       # roots in build order
@@ -130,6 +138,11 @@ class World:
             self.interiors[-1].retain_grad()
         elif ev == "RET_last":
             self.results[-1].retain_grad()
+        elif ev == "B7":
+            self.results.append(a * self.d)
+        elif ev == "REG_d":
+            self.module.inner.pd = self.d
+            self.d_registered = True
         elif ev == "Z_a":
             a.zero_()
         elif ev == "Z_mod":
@@ -157,10 +170,11 @@ class HistoryCase:
                  "synapgrad.nn.modules.Module.zero_grad", "synapgrad.optim.optimizers.Optimizer.zero_grad")
     expect = "history"
 
-    def __init__(self, events):
+    def __init__(self, events, shape=(2,)):
         self.events = tuple(events)
+        self.shape = tuple(shape)           # shape of the leaves a, b, c ((2,) or 0-d)
         self.name = "history"
-        self.key = {"history": list(self.events)}
+        self.key = {"history": list(self.events), "leaf_shape": list(self.shape)}
 
     def run(self, seed):
         res = {"name": self.name, "key": dict(self.key), "obligations": 0, "discharged": 0, "backends": {}, "paths": 1, "solver_s": 0.0,
@@ -189,9 +203,12 @@ class HistoryCase:
     def _run_path(self, res, seed, sess, ex):
         fail = None
         with shim.symbolic(eps="native"):
-            w = World("sym", sess)
-            acc = {"a": None, "b": None, "c": None}
-            leafsym = {k: symarr(k, (2,)) for k in "abc"}
+            w = World("sym", sess, shape=self.shape)
+            acc = {"a": None, "b": None, "c": None, "d": None}
+            leafsym = {k: symarr(k, self.shape) for k in "abcd"}
+            nel = int(np.prod(self.shape)) if self.shape else 1
+            flat = lambda x: np.asarray(x, dtype=object).reshape(-1)
+            zeros = lambda: np.array([S.of(0)] * nel, dtype=object)
 
             def bump(backend):
                 res["obligations"] += 1
@@ -204,7 +221,7 @@ class HistoryCase:
                     return
                 info = {"event_index": ei, "event": ev}
                 tgt = w.target(ev)
-                before = {k: (None if t._grad is None else (t._grad, t._grad.copy())) for k, t in w.leaves.items()}
+                before = {k: (None if t._grad is None else (t._grad, flat(t._grad).copy())) for k, t in w.leaves.items()}
                 if ev.startswith("BW"):
                     reach = reachable(tgt)
                     info["root_kind"] = "leaf" if tgt is w.a else ("interior" if any(tgt is m for m in w.interiors) else
@@ -218,14 +235,16 @@ class HistoryCase:
                     out_terms = np.asarray(tgt.data, dtype=object)
                     for k, t in w.leaves.items():
                         if id(t) in reach and t.requires_grad:
-                            contrib = vjp(out_terms, gsym, leafsym[k])
-                            base = acc[k] if acc[k] is not None else np.zeros((2,), dtype=object)
-                            acc[k] = np.array([S.of(base[i]) + contrib[i] for i in range(2)], dtype=object)
+                            contrib = flat(vjp(out_terms, gsym, leafsym[k]))
+                            base = acc[k] if acc[k] is not None else zeros()
+                            acc[k] = np.array([S.of(base[i]) + contrib[i] for i in range(nel)], dtype=object)
                 elif ev == "Z_a":
-                    acc["a"] = np.zeros((2,), dtype=object)
+                    acc["a"] = zeros()
                 elif ev in ("Z_mod", "Z_opt"):
-                    acc["a"] = np.zeros((2,), dtype=object)
-                    acc["b"] = np.zeros((2,), dtype=object)
+                    acc["a"] = zeros()
+                    acc["b"] = zeros()
+                    if ev == "Z_mod" and w.d_registered:
+                        acc["d"] = zeros()          # the module resets exactly the parameters registered below it NOW
                 try:
                     w.apply(ev)
                 except Exception as e:
@@ -257,10 +276,11 @@ class HistoryCase:
                             continue
                         fail = (oname, "leaf %s has no gradient after event %d (%s) but contributions are due" % (k, ei, ev), {**info, "leaf": k})
                         break
-                    if tuple(np.shape(got)) != (2,):
+                    if tuple(np.shape(got)) != self.shape:
                         fail = ("%s.grad_shape" % _api(ev), "leaf %s gradient has shape %s" % (k, np.shape(got)), {**info, "leaf": k})
                         break
-                    for i in range(2):
+                    got = flat(got)
+                    for i in range(nel):
                         v = prove_equal(S.of(got[i]), S.of(exp[i]), list(sess.pre) + list(ex.pc) + sess.relevant_axioms(list(ex.pc) + [S.of(got[i]).n, S.of(exp[i]).n, S.of(got[i]).d, S.of(exp[i]).d]))
                         res["solver_s"] += v.seconds
                         if v.status == "discharged":
@@ -281,7 +301,7 @@ class HistoryCase:
                     for k, t in w.leaves.items():
                         if id(t) not in reach and before[k] is not None:
                             arr, snap = before[k]
-                            ok = t._grad is arr and all(x is y for x, y in zip(arr.ravel(), snap.ravel()))
+                            ok = t._grad is arr and all(x is y for x, y in zip(flat(arr), snap))
                             if ok:
                                 bump("syntactic")
                             else:
@@ -318,6 +338,11 @@ class HistoryCase:
             rep = self._native_replay(sess, accs, info, seed)
             res["key"].update({k: v for k, v in info.items()})
             if rep.get("reproduced"):
+                if ".completes" in oname and not rep.get("native_exception"):
+                    # the exception belongs to the symbolic run (e.g. a method missing on a symbolic scalar); what the user sees natively is a wrong gradient
+                    oname = oname.replace(".completes", ".leaf_grad_is_sum_of_contributions")
+                    what = "natively after event %s: leaves %s hold %s, the sum of contributions is %s (symbolic run: %s)" % (info.get("event_index"), rep.get("leaves_differing"),
+                                                                                                                          rep.get("actual"), rep.get("expected"), what)
                 res["failures"].append({"obligation": oname, "what": what, "reproduced": True, "replay": rep})
             elif rep.get("native_agrees"):
                 res["errors"].append("history %s: symbolic run fails (%s) but the native replay satisfies the contract: %s" % (self.events, what, rep))
@@ -329,18 +354,18 @@ class HistoryCase:
         from ..symreal.harness import var_names
         rng = random.Random("%s|%d" % (self.events, seed))
         point = {}
-        for k in "abc":
-            for n in var_names(k, (2,)):
+        for k in "abcd":
+            for n in var_names(k, self.shape):
                 point[n] = rng.choice([-1, 1]) * rng.uniform(0.3, 2.0)
         for gi in range(len(self.events) + 1):
-            for shape in ((2,), ()):
+            for shape in ((2,), (), self.shape):
                 for n in var_names("g%d" % gi, shape):
                     point[n] = rng.choice([-1, 1]) * rng.uniform(0.3, 2.0)
         upto = info["event_index"]
         rep = {"inputs": point, "history": list(self.events), "failing_event": upto}
         try:
             with shim.native(dtype=default_dtype):
-                w = World("nat", point=point)
+                w = World("nat", point=point, shape=self.shape)
                 for ev in self.events[: upto + 1]:
                     w.apply(ev)
                 got = {k: (None if t._grad is None else np.array(t._grad, dtype=np.float64)) for k, t in w.leaves.items()}
@@ -351,8 +376,8 @@ class HistoryCase:
             return rep
         exp = {}
         bad = []
-        for k in "ab":
-            exp[k] = None if acc[k] is None else evalarr(np.asarray(acc[k], dtype=object), point)
+        for k in "abd":
+            exp[k] = None if acc[k] is None else evalarr(np.asarray(acc[k], dtype=object), point).reshape(self.shape)
             g = got[k]
             if exp[k] is None:
                 if g is not None and np.any(g != 0):
@@ -381,7 +406,7 @@ class HistoryCase:
 def _api(ev):
     if ev.startswith("BW"):
         return "Tensor.backward"
-    return {"Z_a": "Tensor.zero_", "Z_mod": "Module.zero_grad", "Z_opt": "Optimizer.zero_grad", "RET_int": "Tensor.retain_grad", "RET_last": "Tensor.retain_grad"}.get(ev, "build")
+    return {"Z_a": "Tensor.zero_", "Z_mod": "Module.zero_grad", "Z_opt": "Optimizer.zero_grad", "RET_int": "Tensor.retain_grad", "RET_last": "Tensor.retain_grad", "REG_d": "Module.__setattr__"}.get(ev, "build")
 
 
 def _all_zero(arr):
@@ -401,7 +426,7 @@ def histories(tier, seed):
     maxlen = 3
     for n in range(1, maxlen + 1):
         for h in itertools.product(ALPHABET, repeat=n):
-            if h[0] not in ("B0", "B1", "B2", "B3", "B4", "B5", "B6", "BW_leaf_a", "Z_a", "Z_mod", "Z_opt"):
+            if h[0] not in ("B0", "B1", "B2", "B3", "B4", "B5", "B6", "B7", "BW_leaf_a", "Z_a", "Z_mod", "Z_opt"):
                 continue
             if not any(e.startswith("BW") for e in h):
                 continue
@@ -419,6 +444,19 @@ def histories(tier, seed):
                 for x in BWS:
                     for y in BWS:
                         hs.append((b, r, x, y))
+    # late registration: the module is queried (zero_grad) before and after a parameter is attached to a nested module
+    for pre in (("Z_mod",), ("B7", "BW_last", "Z_mod"), ()):
+        for post in (("B7", "BW_last", "Z_mod", "B7", "BW_last"), ("B7", "BW_last", "Z_mod"), ("B7", "BW_last", "Z_opt", "BW_last", "Z_mod")):
+            hs.append(pre + ("REG_d",) + post)
+    # 0-d leaves (a 0-d gradient buffer degenerates easily into a NumPy scalar): every history of length <= 3 (thorough 4) over the templates that make sense for scalars
+    alpha0 = [e for e in ALPHABET if e not in ("B5", "B6", "B7", "REG_d")]
+    zero_d = []
+    for n in range(1, (4 if tier == "thorough" else 3) + 1):
+        for h in itertools.product(alpha0, repeat=n):
+            if h[0] in ("B0", "B1", "B2", "B3", "B4", "BW_leaf_a", "Z_a", "Z_mod", "Z_opt") and any(e.startswith("BW") for e in h):
+                zero_d.append(h)
+    for h in [("BW_leaf_a", "B0", "BW_last", "Z_a", "BW_last"), ("B0", "BW_last", "BW_leaf_a", "Z_opt", "B0", "BW_last"), ("B2", "BW_last", "BW_leaf_a", "Z_mod", "BW_last")]:
+        zero_d.append(h)
     extra = 600 if tier == "quick" else 6000
     for _ in range(extra):
         n = rng.choice([4, 4, 5, 6]) if tier == "thorough" else rng.choice([4, 4, 5])
@@ -426,7 +464,7 @@ def histories(tier, seed):
         while len(h) < n:
             h.append(rng.choice(ALPHABET))
         hs.append(tuple(h))
-    return [HistoryCase(h) for h in hs]
+    return [HistoryCase(h) for h in hs] + [HistoryCase(h, shape=()) for h in zero_d]
 
 
 def main(tier="quick", seed=0, procs=None, only=None):
